@@ -1109,7 +1109,8 @@ def write_bioboxes(header_lines, results, out_fp, *, sep="\t"):
     for inf in header_lines:
         out_fp.write(inf + "\n")
     for res in results:
-        res = sep.join(res) + "\n"
+        # taxid / taxpath are None when the taxonomy has no 'taxpath' column
+        res = sep.join("" if x is None else str(x) for x in res) + "\n"
         out_fp.write(res)
 
 
